@@ -51,7 +51,7 @@ var kindOf = map[string]string{
 var hangAfter = 20 * time.Second
 
 // nControls is the number of independent sequential control replays made when the determined part differs.
-var nControls = 6
+var nControls = 12
 
 // ---------------------------------------------------------------------------------------------
 
@@ -431,8 +431,12 @@ func (x *runner) session(si int, s Session) (stop bool) {
 					break
 				}
 				twinLines = append(twinLines, line)
-				flagsConc = append(flagsConc, []interface{}{r.Reply.Err != nil, r.Reply.Panic != nil, r.Reply.Adj != nil})
-				flagsSeq = append(flagsSeq, []interface{}{line["err"], line["panic"], line["hasadj"]})
+				// (whether a bulk re-allocation -- Synchronize, Reconfigure: every container, in map order -- succeeds is not a
+				// function of the request order either: measured, a Reconfigure from identical full states fails in about half
+				// of the sequential replays when pools are tight; its error flag is not part of the determined part)
+				bulkOp := r.Op.Op == "Sync" || r.Op.Op == "Reconfigure"
+				flagsConc = append(flagsConc, []interface{}{r.Reply.Err != nil && !bulkOp, r.Reply.Panic != nil, r.Reply.Adj != nil})
+				flagsSeq = append(flagsSeq, []interface{}{line["err"] == true && !bulkOp, line["panic"], line["hasadj"]})
 				a := normReply(l2.ReplyView(r.Reply))
 				b := normReply(tr.M{"err": line["err"], "panic": line["panic"], "adj": line["adj"], "hasadj": line["hasadj"], "upd": line["upd"]})
 				if a != b && sameReplies {
@@ -523,7 +527,7 @@ func (x *runner) session(si int, s Session) (stop bool) {
 							if err == l2.ErrHang {
 								break
 							}
-							fl = append(fl, []interface{}{line["err"], line["panic"], line["hasadj"]})
+							fl = append(fl, []interface{}{line["err"] == true && o.Op != "Sync" && o.Op != "Reconfigure", line["panic"], line["hasadj"]})
 						}
 						// the flags of this round's requests are the last len(order) entries
 						if len(fl) >= len(order) {
